@@ -582,13 +582,13 @@ def gen_cases(tier):
     if quick:
         # ---- N = 2: everything, including cancellation combined with a late arrival
         add(2, None, three, ov2)
-        add(2, None, two, ov2[:4], late=1)
-        add(2, ['n-1_equal', 'n_equal', 'pairwise'], two, [['hold', 'hold'], ['hold', 'release'], ['release', 'bcast_fail']], cancel=0)
+        add(2, ['n-1_equal', 'n_equal', 'pairwise'], two, ov2[:4], late=1)
+        add(2, ['n-1_equal', 'n_equal'], two, [['hold', 'hold'], ['hold', 'release'], ['release', 'bcast_fail']], cancel=0)
         add(2, ['n-1_equal'], two, [['hold', 'hold'], ['release', 'bcast_fail']], cancel=0, late=1)
         # ---- N = 3
         add(3, None, two, [['hold'] * 3, ['release'] * 3])
         add(3, ['n-1_equal', 'pairwise'], two, [['bcast_fail'] * 3])
-        add(3, ['n-1_equal', 'n_equal', 'pairwise'], two, [mixed3])
+        add(3, ['n-1_equal', 'pairwise'], two, [mixed3])
         add(3, ['n-1_equal', 'pairwise'], two, [mixed3], late=2)
         add(3, ['n-1_equal'], two, [['release'] * 3], late=2)
         add(3, ['n_equal'], ['sqlite'], [['hold'] * 3], cancel=0)
@@ -627,7 +627,10 @@ def gen_cases(tier):
     if not quick:
         add(2, ['n_equal'], two, [['bcast_fail', 'bcast_fail']], cross_check=True)
     add(2, ['n-1_equal'], two, [['release', 'bcast_fail']], late=1, cross_check=True)
-    add(2, ['pairwise'] if quick else ['n_equal'], ['prefer_confirmed'] if quick else two, [['hold', 'release']], cancel=0, cross_check=True)
+    if quick:
+        add(2, ['n-1_equal'], ['prefer_confirmed'], [['hold', 'hold']], cancel=0, cross_check=True)
+    else:
+        add(2, ['n_equal'], two, [['hold', 'release']], cancel=0, cross_check=True)
     if not quick:
         add(3, ['n-1_equal'], two, [['hold', 'hold', 'release']], cross_check=True)
     return cases
